@@ -6,6 +6,7 @@
 # then applies it to /repo, runs the given property checks and undoes it.
 set -u
 export GOFLAGS=-mod=mod GOPROXY=off
+if [ -n "$(git -C /repo status --short)" ]; then echo "refusing: /repo has uncommitted changes (they would be lost by the final checkout)"; exit 2; fi
 name=$1; shift
 sd=/verif/seeded/$name
 wt=/tmp/conf_$name
